@@ -9,6 +9,8 @@ LEVEL_TEXT = {
     "C02": ("model_checking", "Mapping fidelity vs. Resolve.tla: TLC enumerates every bounded base graph x 18 fragment libraries x both conventions (ResolveMC); every configuration is resolved through the three constructors and TLC checks C02_Records/Graph/Cover/Copy on every observation (templates derived in TLC from the fragment tokens by FragText!DenoteF).", "4.5, 5 C02"),
     "C03": ("model_checking", "Inter-fragment bonds vs. Resolve.tla on the ResolveMC universe (ambiguous libraries: unlabelled, homopolymers, several descriptors per atom, leftovers, both conventions): across-edge, count <= order (= order under the TLC-decided Dedicated predicate), compatibility, annotated order, descriptor-used-once.", "4.5, 5 C03"),
     "C06": ("model_checking", "Layered strings: molecules cut into blocks and grouped into 1-3 intermediate levels; every resolution step is validated by TLC (coarse graph of step k+1 = fine graph of step k, C02/C03 clauses), the final molecule equals the reference as does the flattened string; ResolverAPI.tla enumerates call histories (three drivers/constructors) replayed and validated.", "5 C06, 3.4"),
+    "C07": ("model_checking", "Graph writer vs. Writer.tla/CGGraph.tla: TLC model-checks RoundTrip for an abstract DFS writer over every connected graph <= 4 nodes, every DFS choice and every bond-order position (the design claim that a correct writer exists inside the reader's grammar); the real writer's output for those graphs, all atlas graphs <= 6 nodes with relabelings, and random graphs is tokenised and TLC checks grammar membership, CGGraph!Denote = G, and the read-back graph under a witness.", "4.7, 5 C07"),
+    "C08": ("model_checking", "Fragment writer vs. FragText.tla: every bounded fragment token string is read, written and re-read; TLC compares FragText!DenoteF of the original and the re-written tokens (elements/names, charges, aromatic flags, bond orders, descriptor bags per atom) and the implementation's two graphs under a witness; complete multi-level strings are re-written from a resolver's inputs and resolved again, TLC checks the isomorphism of the final molecules.", "5 C08"),
     "C09": ("model_checking", "Valence completeness as a per-atom invariant (Chem!Need over usual valences of the isoelectronic atom) evaluated by TLC on every all-atom observation of the ResolveMC universe, repository strings and cut configurations; hydrogens: degree one, inherit membership/name/weight.", "4.4, 5 C09"),
     "C10": ("model_checking", "Shared atoms: the C01 corpus with a random subset of cut bonds replaced by '!' sharing; TLC checks the merged molecule against the reference, membership of shared atoms in exactly their blocks, nothing else merged, one atom fewer per pair.", "5 C10"),
     "C11": ("model_checking", "Virtual nodes / zero-order edges: ResolveMC enumerates base graphs with the fragment-less node V at every position and '.' edges; TLC checks no bond on zero edges, empty virtual nodes, others own exactly their atoms, SyntaxError for a bonded fragment-less node, and equality with the twin configuration without them.", "5 C11"),
